@@ -242,6 +242,19 @@ func runTest(bin string, args []string, env []string, timeout time.Duration, log
 	return code, timedOut, buf.String()
 }
 
+// scaled: VERIF_SCALE shrinks the quick case counts; only tools/mutrun.sh sets it (first
+// pass of the syntactic-mutant sweep; survivors are re-run at full size).
+func scaled(n int) int {
+	f, err := strconv.ParseFloat(os.Getenv("VERIF_SCALE"), 64)
+	if err != nil || f <= 0 || f >= 1 {
+		return n
+	}
+	if m := int(float64(n) * f); m >= 20 {
+		return m
+	}
+	return 20
+}
+
 func knownPath() string { return filepath.Join(root, "known_findings.json") }
 
 func runProperty(p propCfg, tier string) int {
@@ -364,7 +377,7 @@ func runProperty(p propCfg, tier string) int {
 	var jobs []job
 	for i, pt := range p.Parts {
 		if tier == "quick" {
-			jobs = append(jobs, job{i, 0, pt, pt.Quick})
+			jobs = append(jobs, job{i, 0, pt, scaled(pt.Quick)})
 		} else {
 			n := pt.Shards
 			if n == 0 {
